@@ -22,7 +22,7 @@ def cases(tier, rng):
         for _ in range(3 if tier == "quick" else 30):
             gs.append({"graph": "subset", "k": k, "gseed": rng.getrandbits(32)})
     for g in gs:
-        for rep in range(2 if tier == "quick" else 8):
+        for rep in range(6 if tier == "quick" else 12):
             c = dict(g)
             c.update({"mseed": rng.getrandbits(32), "nt": True})
             yield c
